@@ -1188,6 +1188,21 @@ impl Online for SeqDriver {
         if let Some(k) = op.key() {
             self.states_hit.insert((crate::oracle::opname(op).to_string(), self.model.state(k).name().to_string()));
         }
+        if st == Some(St::Pending) {
+            // the acknowledgement yielded the placeholder status (C12's business): this step cannot be
+            // judged; adopt whatever the cache looks like now and carry on
+            simsync::sim::await_idle(simsync::sim::Role::Worker);
+            let o = exec::observe(cache, "step");
+            self.model.pending.clear();
+            self.model.resync(&o);
+            if let Some(k) = op.key() {
+                if let Some(e) = self.model.keys.get_mut(&k) {
+                    e.val = None;
+                }
+            }
+            exec::probe_run("seq.step_skipped_status_pending");
+            return;
+        }
         let pre = self.model.clone();
         let mut mis = vec![];
         if matches!(op, Op::Tick) {
